@@ -31,6 +31,16 @@ ENGINE = "driver"
 H6 = ("NoConflictProposal", "NoConflictSent", "RecoveredState")
 
 
+def _trace_retry(ctx, *a, **kw):
+    """tlc_trace, repeated once when TLC produced no verdict at all (e.g. the JVM was killed from outside)."""
+    ok, res = ctx.tlc_trace(*a, **kw)
+    if not ok and not res.get("violated"):
+        vlib.log("trace validation produced no verdict, retrying once")
+        ctx.tlc_runs.pop()
+        ok, res = ctx.tlc_trace(*a, **kw)
+    return ok, res
+
+
 def _selftest(ctx, path):
     """Binding self-test: the same stream with two adjacent effects swapped must be rejected."""
     with open(path) as f:
@@ -74,12 +84,13 @@ def run(ctx):
             return {cfg: f.read().replace("LogOwnProposal = FALSE", "LogOwnProposal = TRUE")}
 
     if not only or "tlc" in only:
-        r = ctx.tlc_check("consensus", "MCDriver.tla", "Driver_fixed_p_%s.cfg" % tier, timeout=2400, coverage=thorough)
+        r = ctx.tlc_check("consensus", "MCDriver.tla", "Driver_fixed_p_quick.cfg", timeout=2400, coverage=thorough)
         if "coverage" in r:
             vlib.require_actions_covered(r, ignore=("Init",))
-        ctx.tlc_check("consensus", "MCDriver.tla", "Driver_faithful_np_%s.cfg" % tier, timeout=2400)
+        ctx.tlc_check("consensus", "MCDriver.tla", "Driver_faithful_np_quick.cfg", timeout=2400)
         if thorough:
-            ctx.tlc_check("consensus", "MCDriver.tla", "Driver_fixed_r1_thorough.cfg", timeout=2400)
+            for cfg in ("Driver_fixed_p_thorough.cfg", "Driver_faithful_np_thorough.cfg", "Driver_fixed_r1_thorough.cfg"):
+                ctx.tlc_check("consensus", "MCDriver.tla", cfg, timeout=2400)
         r = ctx.tlc_check("consensus", "MCDriver.tla", "Driver_faithful_p.cfg", timeout=1200, expect_violation=True)
         if r["ok"] or r["violated"] not in H6:
             raise vlib.Broken("the faithful proposer model was expected to exhibit H6 (one of %s), TLC says: %s"
@@ -131,7 +142,7 @@ def run(ctx):
                 continue
             if not os.path.exists(path) or os.path.getsize(path) == 0:
                 raise vlib.Broken("concurrent engine wrote no trace for run %d" % run)
-            ok, tres = ctx.tlc_trace("consensus", "MCDriverTrace.tla", "Driver_trace.cfg", path, timeout=1500)
+            ok, tres = _trace_retry(ctx, "consensus", "MCDriverTrace.tla", "Driver_trace.cfg", path, timeout=1500)
             if ok:
                 ctx.traces_validated += 1
                 ctx.coverage["conc_trace_events"] = ctx.coverage.get("conc_trace_events", 0) + \
